@@ -133,6 +133,43 @@ def computeAliveVars (phys : VarSet) (blocks : List (Term Blk)) : AliveMap :=
   aliveFix phys blocks ((subVarCount blocks + phys.length + 1) * (blocks.length + 1) + 2)
     (blocks.map fun b => (b.tid, []))
 
+/-! ### soundness condition of a liveness map (post-fixpoint) and of the block shapes
+
+What makes a liveness map correct for the removal is only that it is a post-fixpoint of the equations
+above: the right-hand side `aliveEndOf`, evaluated with the map itself, is contained in the map. -/
+
+/-- variables alive at the START of the block with tid `t`, given the map `m` of the variables alive at the
+block ends (the `aliveStart` of `aliveRound`) -/
+def aliveStartOf (blocks : List (Term Blk)) (m : AliveMap) (t : Tid) : VarSet :=
+  match blocks.find? (·.tid == t) with
+  | some b => aliveBeforeDefs (m.get t) b.term.defs
+  | none => []
+
+/-- `m` is a post-fixpoint of the liveness equations of the function -/
+def aliveClosed (phys : VarSet) (blocks : List (Term Blk)) (m : AliveMap) : Bool :=
+  blocks.all fun b => (aliveEndOf phys (aliveStartOf blocks m) b).subset (m.get b.tid)
+
+def isCBranchJmp : Jmp → Bool
+  | .CBranch _ _ => true
+  | _ => false
+
+/-- the jump shapes for which the liveness equations describe every continuation of the reference
+interpreter: no jump; one jump that is not conditional; or a conditional jump followed by a jump that
+always has a CFG edge (`Branch`, `Call`, `CallInd`, `Return`, `BranchInd` with known targets) -/
+def dveBlkOk (b : Term Blk) : Bool :=
+  match b.term.jmps with
+  | [] => true
+  | [j] => !isCBranchJmp j.term
+  | [j₁, j₂] =>
+    isCBranchJmp j₁.term &&
+      (match j₂.term with
+        | .Branch _ | .Call _ _ | .CallInd _ _ | .Return _ => true
+        | .BranchInd _ => !b.term.indirectJmpTargets.isEmpty
+        | _ => false)
+  | _ => false
+
+def dveShapeOk (blocks : List (Term Blk)) : Bool := blocks.all dveBlkOk
+
 /-- `Def::Assign { var, .. } if !alive_vars.contains(var) => ()` is the only def that is dropped -/
 def keepDef (alive : VarSet) : Def → Bool
   | .Assign v _ => decide (v ∈ alive)
